@@ -58,22 +58,31 @@ theorem slice_table :
 /-- every slice takes all rows and has no step -/
 theorem slices_plain : colSlices.all (fun s => s.allRows && s.unitStep) = true := by decide
 
+/-- closes the goals below whatever the order in which the source writes its sums and products: unfold
+    the generated table and `Layout`, then normalise the arithmetic -/
+macro "slice_arith" : tactic =>
+  `(tactic| (simp only [bounds, sliceOf, shapeOf, colSlices, zerosShapes, List.find?, Option.map, ordersRange, fdRange,
+      absolute, width, writeIndus, writeHouse, readIndus, readHouse, beq_self_eq_true, Bool.and_true, Bool.true_and,
+      Bool.and_false, Bool.false_and, String.reduceBEq, Nat.reduceBEq, Option.some.injEq, Prod.mk.injEq, true_and, and_true,
+      Nat.zero_add, Nat.add_zero] <;>
+    (try simp) <;> (try (constructor <;> ring)) <;> (try ring)))
+
 section
 variable (m n k nb id : Nat)
 
 /-- orders: `intermediate_demand` (read and write) is columns [0, N) -/
 theorem orders_columns :
     bounds "ARIOBaseModel.intermediate_demand.getter" 0 m n k nb id = some (none, some (ordersRange (m * n)).hi) ∧
-    bounds "ARIOBaseModel.intermediate_demand.setter" 0 m n k nb id = some (none, some (ordersRange (m * n)).hi) :=
-  ⟨rfl, rfl⟩
+    bounds "ARIOBaseModel.intermediate_demand.setter" 0 m n k nb id = some (none, some (ordersRange (m * n)).hi) := by
+  refine ⟨?_, ?_⟩ <;> slice_arith
 
 /-- final demand (read and write) is columns [N, N + F) -/
 theorem final_demand_columns :
     bounds "ARIOBaseModel.final_demand.getter" 0 m n k nb id
       = some (some (fdRange (m * n) (m * k)).lo, some (fdRange (m * n) (m * k)).hi) ∧
     bounds "ARIOBaseModel.final_demand.setter" 0 m n k nb id
-      = some (some (fdRange (m * n) (m * k)).lo, some (fdRange (m * n) (m * k)).hi) :=
-  ⟨rfl, rfl⟩
+      = some (some (fdRange (m * n) (m * k)).lo, some (fdRange (m * n) (m * k)).hi) := by
+  refine ⟨?_, ?_⟩ <;> slice_arith
 
 /-- the rebuilding part (read and write) starts at N + F and runs to the end -/
 theorem rebuild_part_columns :
@@ -81,7 +90,7 @@ theorem rebuild_part_columns :
       = some (some (absolute (m * n) (m * k) ⟨0, (m * n + m * k) * nb⟩).lo, none) ∧
     bounds "ARIOBaseModel.rebuild_demand.setter" 2 m n k nb id
       = some (some (absolute (m * n) (m * k) ⟨0, (m * n + m * k) * nb⟩).lo, none) := by
-  refine ⟨?_, ?_⟩ <;> simp [bounds, sliceOf, colSlices, absolute]
+  refine ⟨?_, ?_⟩ <;> slice_arith
 
 /-- industrial and household rebuilding parts: [N+F, N+F+N·nb) and [N+F+N·nb, end) -/
 theorem rebuild_parts_split :
@@ -92,7 +101,7 @@ theorem rebuild_parts_split :
     -- the totals of the setter split the rebuilding part at the same column
     bounds "ARIOBaseModel.rebuild_demand.setter" 0 m n k nb id = some (none, some (m * n * nb)) ∧
     bounds "ARIOBaseModel.rebuild_demand.setter" 1 m n k nb id = some (some (m * n * nb), none) := by
-  refine ⟨?_, ?_, ?_, ?_⟩ <;> simp [bounds, sliceOf, colSlices, absolute]
+  refine ⟨?_, ?_, ?_, ?_⟩ <;> slice_arith
 
 /-- `_chg_events_number` allocates `Layout.width` columns and copies exactly orders + final demand -/
 theorem resize_keeps_orders_and_final_demand :
@@ -100,7 +109,7 @@ theorem resize_keeps_orders_and_final_demand :
       = some (some (width (m * n) (m * k) nb)) ∧
     bounds "ARIOBaseModel._chg_events_number" 0 m n k nb id = some (none, some (fdRange (m * n) (m * k)).hi) ∧
     bounds "ARIOBaseModel._chg_events_number" 1 m n k nb id = some (none, some (fdRange (m * n) (m * k)).hi) := by
-  refine ⟨?_, ?_, ?_⟩ <;> simp [bounds, sliceOf, shapeOf, colSlices, zerosShapes, width, fdRange]
+  refine ⟨?_, ?_, ?_⟩ <;> slice_arith
 
 /-- the delivered matrix is cut at the same columns as the demand matrix -/
 theorem delivery_columns :
@@ -109,7 +118,7 @@ theorem delivery_columns :
       = some (some (fdRange (m * n) (m * k)).lo, some (fdRange (m * n) (m * k)).hi) ∧
     bounds "ARIOBaseModel.distribute_production" 2 m n k nb id
       = some (some (absolute (m * n) (m * k) ⟨0, 0⟩).lo, none) := by
-  refine ⟨?_, ?_, ?_⟩ <;> simp [bounds, sliceOf, colSlices, ordersRange, fdRange, absolute, Nat.mul_comm]
+  refine ⟨?_, ?_, ?_⟩ <;> slice_arith
 
 /-- THE WRITER: `update_rebuild_demand` writes event `id` at `Layout.writeIndus` / `Layout.writeHouse`,
     in a buffer as wide as the rebuilding part -/
@@ -120,7 +129,7 @@ theorem writer_is_layout :
       = some (some (writeHouse (m * n) (m * k) nb id).lo, some (writeHouse (m * n) (m * k) nb id).hi) ∧
     (shapeOf "Simulation.update_rebuild_demand").map (fun s => s.cols m n k nb id)
       = some (some ((m * n + m * k) * nb)) := by
-  refine ⟨?_, ?_, ?_⟩ <;> simp [bounds, sliceOf, shapeOf, colSlices, zerosShapes, writeIndus, writeHouse]
+  refine ⟨?_, ?_, ?_⟩ <;> slice_arith
 
 /-- THE READER: `rebuild_prod_indus_event(id)` / `rebuild_prod_house_event(id)`, composed with the
     slices `rebuild_prod_indus` / `rebuild_prod_house` they are taken from, read `Layout.readIndus` /
@@ -135,7 +144,7 @@ theorem reader_is_layout :
     (bounds "ARIOBaseModel.rebuild_prod_house_event" 0 m n k nb id).map
         (fun b => (b.1.map (m * n * nb + ·), b.2.map (m * n * nb + ·)))
       = some (some (readHouse (m * n) (m * k) nb id).lo, some (readHouse (m * n) (m * k) nb id).hi) := by
-  refine ⟨?_, ?_, ?_, ?_⟩ <;> simp [bounds, sliceOf, colSlices, readIndus, readHouse]
+  refine ⟨?_, ?_, ?_, ?_⟩ <;> slice_arith
 
 /-- what is written for an event is what is read back for it (C11), and an industrial block read for an
     event with `id < nb` stays inside the industrial part (the slice is not silently truncated) -/
@@ -147,8 +156,8 @@ theorem code_writer_reader_agree (h : id < nb) :
     (readIndus (m * n) id).hi ≤ m * n * nb ∧ (readHouse (m * n) (m * k) nb id).hi ≤ (m * n + m * k) * nb := by
   have hb := blocks_inside (m * n) (m * k) nb id h
   refine ⟨?_, ?_, ?_, ?_⟩
-  · simp [bounds, sliceOf, colSlices]
-  · simp [bounds, sliceOf, colSlices]
+  · slice_arith
+  · slice_arith
   · simpa [readIndus, writeIndus] using hb.1
   · simpa [readHouse, writeHouse] using hb.2.2
 
